@@ -4,7 +4,8 @@
    wrappers of internal/compression on top of them.  Every operator returns the SET of possible
    outcomes of one method call (what a malformed stream does to a decoder is not determined).
 
-   Library contracts assumed (each is a sentence of the library's documentation):
+   Library contracts assumed (each a sentence of the library's documentation; R1b and the second
+   half of R3 are read off the library source and reproduced on the real objects by the harness):
      R1  Reset(src) / New(src) discards all state of the reader, including a sticky error
      R1b ... except andybalholm brotli.Reader (v1.1.1): Reset re-initialises the decoder but keeps
          the input it has buffered and not consumed, unless the decoder had failed (error_code
